@@ -98,6 +98,38 @@ func zstdDecode(b []byte) ([]byte, error) {
 	return d.DecodeAll(b, nil)
 }
 
+// zstdFrame encodes chunk as exactly one zstd frame whose header does (declare)
+// or does not carry the Frame_Content_Size field; the header is checked.
+func zstdFrame(chunk []byte, declare bool) ([]byte, error) {
+	var out []byte
+	if declare {
+		out = zenc.EncodeAll(chunk, nil)
+	} else {
+		var buf bytes.Buffer
+		w, err := zstd.NewWriter(&buf, zstd.WithWindowSize(1024), zstd.WithEncoderConcurrency(1))
+		if err != nil {
+			return nil, err
+		}
+		h := len(chunk) / 2
+		w.Write(chunk[:h])
+		w.Flush() // the frame header goes out before the size is known
+		w.Write(chunk[h:])
+		if err := w.Close(); err != nil {
+			return nil, err
+		}
+		out = buf.Bytes()
+	}
+	var hdr zstd.Header
+	if err := hdr.Decode(out); err != nil {
+		return nil, err
+	}
+	if hdr.HasFCS != declare || (declare && hdr.FrameContentSize != uint64(len(chunk))) {
+		return nil, fmt.Errorf("zstd frame header: HasFCS=%v size=%d, wanted declare=%v size=%d",
+			hdr.HasFCS, hdr.FrameContentSize, declare, len(chunk))
+	}
+	return out, nil
+}
+
 // skippable returns a zstd skippable frame of total length n (n >= 8); decoders ignore it.
 func skippable(n int) []byte {
 	out := make([]byte, n)
